@@ -112,6 +112,10 @@ class SyncTcp(FrontEnd):
     def open(self, cid):
         ch = net.Channel(self.k, 'c%d' % cid)
         sock = net.SimSocket(self.k, ch, 'b', name='srv-c%d' % cid)
+        if self.opts.get('socket_timeout'):
+            # the application called socket.setdefaulttimeout() (the handler's docstring suggests it to get
+            # self.running checked now and then): accepted sockets inherit it and recv() raises socket.timeout
+            sock.settimeout(float(self.opts['socket_timeout']))
         self.conns[cid] = (ch, sock)
         # what serve_forever's accept loop does for each accepted connection
         self.server.process_request(sock, ('sim-cli', 1000 + cid))
@@ -279,7 +283,9 @@ class AioTcp(AioBase):
         return self.loop._sim_servers[0].factory
 
     def open(self, cid):
-        tr = SimAioTransport(self.loop, ('sim-cli', 1000 + cid))
+        # (a peer that re-connects after a crash may come from the same address and port as before)
+        port = 1000 + int((self.opts.get('same_addr') or {}).get(str(cid), cid))
+        tr = SimAioTransport(self.loop, ('sim-cli', port))
         self.conns[cid] = [tr, None]
 
         def accept():
